@@ -59,32 +59,18 @@ Definition clause_outcome (c : case) (r : rres) : bool :=
   | _ => true
   end.
 
-(* ---- known-finding classes: INPUT only (the reference run is a function of the input) ---- *)
-
-(* F5: the loop passes through a url spelled with `.`, `..` or an empty segment *)
-Definition known_K1 (r : rres) : bool :=
-  match r with
-  | RefLoop fr (k, u) => spelled u || existsb (fun f => spelled (snd f)) (removelast fr)
-  | _ => false
-  end.
-
-(* F6: every file of the loop was entered through meta.load-css, and so is the closing load *)
-Definition known_K2 (r : rres) : bool :=
-  match r with
-  | RefLoop fr (k, u) =>
-      match k with KLoadCss => forallb (fun f => match snd (fst f) with KLoadCss => true | _ => false end) fr | _ => false end
-  | _ => false
-  end.
+(* (the known-finding classes K1 = spelled url on a cycle and K2 = load-css-only cycle were closed by
+   the fixes d80c9be and 2454c18: no escape is left) *)
 
 Definition b2z (b : bool) : Z := if b then 1%Z else 0%Z.
 
 Definition ref_class (r : rres) : Z :=
   match r with RefDone _ _ _ => 0 | RefLoop _ _ => 1 | RefNotFound => 3 | RefFuel => 9 end%Z.
 
-(* [corr; terminates; loop reported; no false loop; outcome; known class (0/1/2); reference class] *)
+(* [corr; terminates; loop reported; no false loop; outcome; known class (always 0); reference class] *)
 Definition run (c : case) : list Z :=
   let r := reference c in
   [ corr c;
     b2z (clause_terminates c); b2z (clause_loop_reported c r); b2z (clause_no_false_loop c r); b2z (clause_outcome c r);
-    (if known_K1 r then 1 else if known_K2 r then 2 else 0)%Z;
+    0%Z;
     ref_class r ].
